@@ -101,17 +101,17 @@ impl BlteBuilder {
     /// Add data that will be automatically chunked
     pub fn add_data(mut self, data: &[u8]) -> BlteResult<Self> {
         if data.len() <= self.chunk_size {
-            // Single chunk
+            // Single chunk - the cipher block index is the chunk's position in the file
             let chunk = if let Some(_encryption) = &self.encryption {
-                self.create_encrypted_chunk(data.to_vec(), 0)?
+                self.create_encrypted_chunk(data.to_vec(), self.chunks.len())?
             } else {
                 ChunkData::new(data.to_vec(), self.default_mode)?
             };
             self.chunks.push(chunk);
         } else {
-            // Multiple chunks
+            // Multiple chunks - block indices continue from the chunks already added
             let mut offset = 0;
-            let mut chunk_index = 0;
+            let mut chunk_index = self.chunks.len();
             while offset < data.len() {
                 let end = (offset + self.chunk_size).min(data.len());
                 let chunk_data = data[offset..end].to_vec();
